@@ -310,6 +310,19 @@ def _lift3_binop(interp, op, name, a, b, sa, sb, shape, st, node):
     return lift3_map(interp, [a, b], lambda els: binop(interp, op, els[0], els[1], st, node), st)
 
 
+def _row_of_table(t):
+    """one row / column of a table, possibly times a number"""
+    if not isinstance(t, Term):
+        return False
+    if t.op == "getitem":
+        return True
+    if t.op in ("smul", "mul") and len(t.args) == 2:
+        return any(isinstance(x, Term) and x.op == "const" for x in t.args) and any(_row_of_table(x) for x in t.args)
+    if t.op == "neg" and len(t.args) == 1:
+        return _row_of_table(t.args[0])
+    return False
+
+
 def binop(interp, op, a, b, st, node):
     name = OPNAMES.get(type(op), "binop") if not isinstance(op, str) else op
     if a.kind == "maybe":
@@ -395,6 +408,10 @@ def binop(interp, op, a, b, st, node):
         if r is not None:
             return r
     term = T(name, a.term, b.term)
+    if name == "matmul" and sa is not None and sb is not None and len(sa) == 2 and len(sb) == 1 and isinstance(b.term, Term) and _row_of_table(b.term) and isinstance(a.term, Term) and a.term.op in ("sym", "T", "getitem"):
+        # M @ v = v @ M^T for a vector v that is one row / column of a table: one spelling
+        at_ = a.term.args[0] if (a.term.op == "T" and len(a.term.args) == 1) else T("T", a.term)
+        term = T("matmul", b.term, at_)
     if name == "matmul" and a.term.op == "stack" and len(a.term.args) == 3 and a.term.args[0] == const(1) and a.term.args[2].op == "zeros" and sb is not None and len(sb) == 2 and sa is not None and len(sa) == 2:
         # [A, 0] @ C = A @ C[:k]   (block product with a zero block)
         k_t = a.term.args[2].args[1] if len(a.term.args[2].args) == 2 else None
